@@ -109,9 +109,9 @@ def cases(tier, seed):
 
 def targets(tier):
     k = 1 if tier == "quick" else 10
-    t = {"encoded_runs_compared": 1500 * k, "unused_argument_runs_compared": 140 * k, "steps_compared": 200000 * k}
+    t = {"encoded_runs_compared": 1500 * k, "unused_argument_runs_compared": 110 * k, "steps_compared": 200000 * k}
     for name in ERR + ("LinearFourRates",):
-        t["drift_histories:" + name] = 15 * k
+        t["drift_histories:" + name] = 8 * k
     return t
 
 
